@@ -119,6 +119,8 @@ func ruleR20Scalar(c *Ctx, prop string) {
 					switch {
 					case W.has(ta.X) && covered[elem]:
 						c.discharge("R20", key, c.pos(ta.Pos()), "Data() passes the scalar wrapper (which covers "+elem+") before being asserted to []"+elem)
+					case W.has(ta.X) && prop == "C11" && !c.castAdmits(elem):
+						c.note("R20", key, c.pos(ta.Pos()), "the scalar wrapper has no case for "+elem+", but Cast's input gate does not admit that element type, so the assertion is unreachable through the operator")
 					case W.has(ta.X):
 						c.violate("R20", key, c.pos(ta.Pos()), "Data() passes the scalar wrapper, but the wrapper has no case for "+elem+": a rank-0 tensor of that type still arrives as a bare value")
 					case ta.CommaOk:
@@ -534,4 +536,22 @@ func unmodifiedCloneOf(v ssa.Value, p ssa.Value) bool {
 		}
 	}
 	return true
+}
+
+// castAdmits: does the Cast operator's gate admit tensors of Go element type elem at input 0?
+func (c *Ctx) castAdmits(elem string) bool {
+	oi := c.opByName("Cast")
+	if oi == nil {
+		return true
+	}
+	t := c.gateTableOf(oi)
+	if !t.rowsOK || len(t.rows) == 0 {
+		return true
+	}
+	for name, g := range dtypeGo {
+		if g == elem && has(t.rows[0], name) {
+			return true
+		}
+	}
+	return false
 }
